@@ -788,3 +788,442 @@ Proof.
   - reflexivity.
   - cbn [nltb RNum]. apply Rltb_true. exact Hes.
 Qed.
+
+(* ======================= Part 3: accuracy, what can be proved ================== *)
+(* vectors as functions on indices; M = aget A *)
+Definition mvf (n : nat) (M : nat -> nat -> R) (x : nat -> R) : nat -> R :=
+  fun s => rsum n (fun t => M s t * x t).
+Definition dotf (n : nat) (x y : nat -> R) : R := rsum n (fun t => x t * y t).
+Definition rqf (n : nat) (M : nat -> nat -> R) (x : nat -> R) : R :=
+  dotf n x (mvf n M x) / dotf n x x.
+(* y_k = A^(k+1) * ones, the un-normalised power sequence *)
+Fixpoint ypow (n : nat) (M : nat -> nat -> R) (k : nat) : nat -> R :=
+  match k with
+  | O => mvf n M (fun _ => 1)
+  | S k' => mvf n M (ypow n M k')
+  end.
+
+Lemma rayleigh_rqf n (A v : arr R) : rayleigh n A v = rqf n (aget A) (fun t => aget v t 0).
+Proof. reflexivity. Qed.
+
+(* ---- finite sums ------------------------------------------------------------- *)
+Lemma rsum_zero n f : (forall i, (i < n)%nat -> f i = 0) -> rsum n f = 0.
+Proof.
+  induction n as [|n IH]; intro H; [reflexivity|].
+  cbn [rsum]. rewrite IH, (H n) by (intros; try apply H; lia). ring.
+Qed.
+Lemma rsum_plus n f g : rsum n (fun i => f i + g i) = rsum n f + rsum n g.
+Proof. induction n as [|n IH]; cbn [rsum]; [ring|rewrite IH; ring]. Qed.
+Lemma rsum_scal n a f : rsum n (fun i => a * f i) = a * rsum n f.
+Proof. induction n as [|n IH]; cbn [rsum]; [ring|rewrite IH; ring]. Qed.
+Lemma rsum_scal_r n a f : rsum n (fun i => f i * a) = rsum n f * a.
+Proof. induction n as [|n IH]; cbn [rsum]; [ring|rewrite IH; ring]. Qed.
+Lemma rsum_swap n m (F : nat -> nat -> R) :
+  rsum n (fun i => rsum m (fun j => F i j)) = rsum m (fun j => rsum n (fun i => F i j)).
+Proof.
+  induction n as [|n IH]; cbn [rsum].
+  - symmetry. apply rsum_zero. reflexivity.
+  - rewrite IH, <- rsum_plus. reflexivity.
+Qed.
+Lemma rsum_delta n (F : nat -> R) i : (i < n)%nat ->
+  rsum n (fun j => F j * (if (i =? j)%nat then 1 else 0)) = F i.
+Proof.
+  induction n as [|n IH]; intro Hi; [lia|]. cbn [rsum].
+  destruct (Nat.eq_dec i n) as [->|Hne].
+  - rewrite Nat.eqb_refl, rsum_zero; [ring|].
+    intros j Hj. destruct (n =? j)%nat eqn:E; [apply Nat.eqb_eq in E; lia|ring].
+  - rewrite IH by lia. destruct (i =? n)%nat eqn:E; [apply Nat.eqb_eq in E; lia|ring].
+Qed.
+Lemma rsum_le n f g : (forall i, (i < n)%nat -> f i <= g i) -> rsum n f <= rsum n g.
+Proof.
+  induction n as [|n IH]; intro H; cbn [rsum]; [lra|].
+  assert (rsum n f <= rsum n g) by (apply IH; intros; apply H; lia).
+  assert (f n <= g n) by (apply H; lia). lra.
+Qed.
+Lemma rsum_nonneg n f : (forall i, (i < n)%nat -> 0 <= f i) -> 0 <= rsum n f.
+Proof.
+  intro H. rewrite <- (rsum_zero n (fun _ => 0)) by reflexivity. apply rsum_le. exact H.
+Qed.
+Lemma rsum_abs n f : Rabs (rsum n f) <= rsum n (fun i => Rabs (f i)).
+Proof.
+  induction n as [|n IH]; cbn [rsum]; [rewrite Rabs_R0; lra|].
+  eapply Rle_trans; [apply Rabs_triang|]. lra.
+Qed.
+Lemma rsum_shift m f : rsum (S m) f = f 0%nat + rsum m (fun i => f (S i)).
+Proof.
+  induction m as [|m IH]; [cbn [rsum]; ring|].
+  change (rsum (S (S m)) f) with (rsum (S m) f + f (S m)). rewrite IH. cbn [rsum]. ring.
+Qed.
+Lemma sumsq_zero n (v : nat -> R) : rsum n (fun i => v i * v i) = 0 ->
+  forall i, (i < n)%nat -> v i = 0.
+Proof.
+  induction n as [|n IH]; intros H i Hi; [lia|]. cbn [rsum] in H.
+  assert (H0 : 0 <= rsum n (fun i => v i * v i)) by (apply rsum_nonneg; intros; nra).
+  assert (H1 : 0 <= v n * v n) by nra.
+  destruct (Nat.eq_dec i n) as [->|Hne]; [nra|]. apply IH; [lra|lia].
+Qed.
+
+(* ---- (1) the Rayleigh quotient minimises the residual -------------------------- *)
+Lemma resid_expand n (a v : nat -> R) mu :
+  rsum n (fun i => (a i - mu * v i) ^ 2) =
+  rsum n (fun i => a i ^ 2) - 2 * mu * rsum n (fun i => v i * a i) + mu ^ 2 * rsum n (fun i => v i * v i).
+Proof. induction n as [|n IH]; cbn [rsum]; [ring|rewrite IH; ring]. Qed.
+
+Lemma rq_num n (a v : nat -> R) :
+  rsum n (fun i => v i * a i) =
+  rsum n (fun i => v i * a i) / rsum n (fun i => v i * v i) * rsum n (fun i => v i * v i).
+Proof.
+  destruct (Req_dec (rsum n (fun i => v i * v i)) 0) as [Hz|Hnz].
+  - rewrite Hz, Rmult_0_r. apply rsum_zero. intros i Hi.
+    rewrite (sumsq_zero n v Hz i Hi). ring.
+  - field. exact Hnz.
+Qed.
+
+Lemma rayleigh_residual n (M : nat -> nat -> R) (v : nat -> R) :
+  let a := mvf n M v in
+  let lam := rqf n M v in
+  rsum n (fun i => (a i - lam * v i) ^ 2) =
+    rsum n (fun i => a i ^ 2) - lam ^ 2 * rsum n (fun i => v i ^ 2) /\
+  forall mu, rsum n (fun i => (a i - lam * v i) ^ 2) <= rsum n (fun i => (a i - mu * v i) ^ 2).
+Proof.
+  cbv zeta. set (a := mvf n M v).
+  assert (Esq : rsum n (fun i => v i ^ 2) = rsum n (fun i => v i * v i))
+    by (apply rsum_ext; intros; ring).
+  unfold rqf, dotf. fold a.
+  pose proof (rq_num n a v) as HN.
+  set (N := rsum n (fun i => v i * a i)) in *.
+  set (D := rsum n (fun i => v i * v i)) in *.
+  set (lam := N / D) in *.
+  assert (HD : 0 <= D) by (apply rsum_nonneg; intros; nra).
+  split.
+  - rewrite resid_expand, Esq. fold N D. rewrite HN at 1. ring.
+  - intro mu. rewrite !resid_expand. fold N D.
+    assert (0 <= D * (mu - lam) ^ 2) by (apply Rmult_le_pos; [exact HD|apply pow2_ge_0]).
+    replace N with (lam * D) by (symmetry; exact HN). nra.
+Qed.
+
+Lemma c13_rayleigh_residual_R : forall (rows : list (list R)) (es lam : R) (v : arr R),
+  power_method rows es = Ok (lam, v) ->
+  exists (n : nat) (A : arr R),
+    (1 <= n)%nat /\ try_from rows = Ok A /\ ah A = n /\ aw A = n /\ shaped n 1 v /\
+    let vi := fun i => aget v i 0 in
+    let Av := mvf n (aget A) vi in
+    lam = rayleigh n A v /\
+    rsum n (fun i => (Av i - lam * vi i) ^ 2) =
+      rsum n (fun i => Av i ^ 2) - lam ^ 2 * rsum n (fun i => vi i ^ 2) /\
+    forall mu, rsum n (fun i => (Av i - lam * vi i) ^ 2) <= rsum n (fun i => (Av i - mu * vi i) ^ 2).
+Proof.
+  intros rows es lam v H.
+  destruct (c13_shape_norm_R rows es lam v H)
+    as [n [A [x [prev [ea [Hn [_ [Htf [HA1 [HA2 [_ [_ [_ Hrest]]]]]]]]]]]]].
+  cbv zeta in Hrest. destruct Hrest as [_ [Hv [_ [_ [_ [_ El]]]]]].
+  exists n, A. split; [exact Hn|]. split; [exact Htf|]. split; [exact HA1|]. split; [exact HA2|].
+  split; [exact Hv|]. cbv zeta.
+  split; [exact El|]. rewrite El, rayleigh_rqf.
+  exact (rayleigh_residual n (aget A) (fun i => aget v i 0)).
+Qed.
+
+(* ---- (2) geometric convergence of the Rayleigh quotients under an explicit
+        eigen-decomposition hypothesis ------------------------------------------- *)
+Lemma mvf_scale n M a (x : nat -> R) s : mvf n M (fun t => a * x t) s = a * mvf n M x s.
+Proof.
+  unfold mvf. rewrite <- rsum_scal. apply rsum_ext. intros; ring.
+Qed.
+Lemma mvf_ext n M (x x' : nat -> R) s : (forall t, (t < n)%nat -> x t = x' t) ->
+  mvf n M x s = mvf n M x' s.
+Proof. intro H. unfold mvf. apply rsum_ext. intros t Ht. rewrite (H t Ht). reflexivity. Qed.
+Lemma rqf_ext n M (x x' : nat -> R) : (forall t, (t < n)%nat -> x t = x' t) ->
+  rqf n M x = rqf n M x'.
+Proof.
+  intro H. unfold rqf, dotf. f_equal.
+  - apply rsum_ext. intros t Ht. rewrite (H t Ht), (mvf_ext n M x x' t H). reflexivity.
+  - apply rsum_ext. intros t Ht. rewrite (H t Ht). reflexivity.
+Qed.
+(* rescaling a vector does not change its Rayleigh quotient *)
+Lemma rqf_scale n M a (x : nat -> R) : a <> 0 -> rqf n M (fun t => a * x t) = rqf n M x.
+Proof.
+  intro Ha. unfold rqf, dotf.
+  rewrite (rsum_ext n (fun t => a * x t * mvf n M (fun t0 => a * x t0) t)
+                      (fun t => (a * a) * (x t * mvf n M x t)))
+    by (intros t Ht; rewrite mvf_scale; ring).
+  rewrite (rsum_ext n (fun t => a * x t * (a * x t)) (fun t => (a * a) * (x t * x t)))
+    by (intros; ring).
+  rewrite !rsum_scal. unfold Rdiv. rewrite Rinv_mult.
+  set (N := rsum n (fun t => x t * mvf n M x t)). set (D := rsum n (fun t => x t * x t)).
+  replace (a * a * N * (/ (a * a) * / D)) with ((a * a) * / (a * a) * (N * / D)) by ring.
+  rewrite Rinv_r by (apply Rmult_integral_contrapositive_currified; exact Ha). ring.
+Qed.
+
+Lemma scale_nonzero n (w : arr R) : (1 <= n)%nat -> shaped n 1 w ->
+  ~ (forall i, (i < n)%nat -> aget w i 0 = 0) -> scale_of w <> 0.
+Proof.
+  intros Hn Hw Hnz Hz. apply Hnz. intros i Hi.
+  destruct (scale_of_R n w Hn Hw) as [_ [[Hpos _]|[_ Hbd]]]; cbv zeta in *.
+  - lra.
+  - specialize (Hbd i Hi). lra.
+Qed.
+
+(* weighted mean of the lv i with weights w i >= 0, w 0 > 0, against lv 0 *)
+Lemma wmean_bound m (w lv : nat -> R) : 0 < w 0%nat -> (forall i, (i < m)%nat -> 0 <= w (S i)) ->
+  Rabs (rsum (S m) (fun i => w i * lv i) / rsum (S m) w - lv 0%nat) * w 0%nat <=
+  rsum m (fun i => w (S i) * Rabs (lv (S i) - lv 0%nat)).
+Proof.
+  intros Hw0 Hw. set (l0 := lv 0%nat).
+  rewrite (rsum_shift m w), (rsum_shift m (fun i => w i * lv i)). fold l0.
+  set (tl := rsum m (fun i => w (S i))).
+  assert (Htl : 0 <= tl) by (apply rsum_nonneg; exact Hw).
+  set (D := w 0%nat + tl). assert (HD : 0 < D) by (unfold D; lra).
+  set (X := rsum m (fun i => w (S i) * (lv (S i) - l0))).
+  assert (EX : w 0%nat * l0 + rsum m (fun i => w (S i) * lv (S i)) - l0 * D = X).
+  { unfold X, D, tl.
+    rewrite (rsum_ext m (fun i => w (S i) * (lv (S i) - l0))
+                        (fun i => w (S i) * lv (S i) + (- l0) * w (S i))) by (intros; ring).
+    rewrite rsum_plus, rsum_scal. ring. }
+  replace ((w 0%nat * l0 + rsum m (fun i => w (S i) * lv (S i))) / D - l0)
+    with (X / D) by (rewrite <- EX; field; lra).
+  assert (HX : Rabs X <= rsum m (fun i => w (S i) * Rabs (lv (S i) - l0))).
+  { unfold X. eapply Rle_trans; [apply rsum_abs|]. apply rsum_le. intros i Hi.
+    rewrite Rabs_mult, (Rabs_pos_eq _ (Hw i Hi)). lra. }
+  unfold Rdiv. rewrite Rabs_mult, (Rabs_pos_eq (/ D)) by (left; apply Rinv_0_lt_compat; exact HD).
+  assert (Hr : 0 < / D) by (apply Rinv_0_lt_compat; exact HD).
+  assert (HrD : / D * D = 1) by (apply Rinv_l; lra).
+  assert (Hrw : / D * w 0%nat <= 1) by (unfold D in *; nra).
+  pose proof (Rabs_pos X) as HaX.
+  apply Rle_trans with (Rabs X); [|exact HX]. rewrite Rmult_assoc. nra.
+Qed.
+
+Section Eigen.
+  Variables (n : nat) (A : arr R) (q : nat -> nat -> R) (lam c : nat -> R) (g : R).
+  Let M := aget A.
+  Hypothesis Hn : (1 <= n)%nat.
+  Hypothesis HA1 : ah A = n.
+  Hypothesis HA2 : aw A = n.
+  (* q_0 .. q_(n-1) orthonormal eigenvectors, q i t = component t of q_i *)
+  Hypothesis Horth : forall i j, (i < n)%nat -> (j < n)%nat ->
+    dotf n (q i) (q j) = if (i =? j)%nat then 1 else 0.
+  Hypothesis Heig : forall i s, (i < n)%nat -> (s < n)%nat -> mvf n M (q i) s = lam i * q i s.
+  (* the all-ones start vector is sum_i c_i q_i *)
+  Hypothesis Hones : forall t, (t < n)%nat -> 1 = rsum n (fun i => c i * q i t).
+  Hypothesis Hc0 : c 0%nat <> 0.
+  Hypothesis Hl0 : lam 0%nat <> 0.
+  Hypothesis Hg : 0 <= g < 1.
+  Hypothesis Hgap : forall i, (1 <= i < n)%nat -> Rabs (lam i) <= g * Rabs (lam 0%nat).
+
+  Lemma mvf_lincomb (a x : nat -> R) :
+    (forall t, (t < n)%nat -> x t = rsum n (fun i => a i * q i t)) ->
+    forall s, (s < n)%nat -> mvf n M x s = rsum n (fun i => a i * lam i * q i s).
+  Proof.
+    intros Hx s Hs. unfold mvf.
+    rewrite (rsum_ext n _ (fun t => rsum n (fun i => a i * (M s t * q i t)))).
+    2:{ intros t Ht. rewrite (Hx t Ht), <- rsum_scal. apply rsum_ext. intros; ring. }
+    rewrite rsum_swap. apply rsum_ext. intros i Hi. rewrite rsum_scal.
+    change (rsum n (fun t => M s t * q i t)) with (mvf n M (q i) s).
+    rewrite Heig by assumption. ring.
+  Qed.
+
+  Lemma parseval (a b x y : nat -> R) :
+    (forall t, (t < n)%nat -> x t = rsum n (fun i => a i * q i t)) ->
+    (forall t, (t < n)%nat -> y t = rsum n (fun j => b j * q j t)) ->
+    dotf n x y = rsum n (fun i => a i * b i).
+  Proof.
+    intros Hx Hy. unfold dotf.
+    rewrite (rsum_ext n _ (fun t => rsum n (fun i => rsum n (fun j => a i * b j * (q i t * q j t))))).
+    2:{ intros t Ht. rewrite (Hx t Ht), (Hy t Ht), <- rsum_scal_r. apply rsum_ext. intros i Hi.
+        rewrite <- rsum_scal. apply rsum_ext. intros; ring. }
+    rewrite rsum_swap. apply rsum_ext. intros i Hi. rewrite rsum_swap.
+    rewrite (rsum_ext n _ (fun j => a i * b j * (if (i =? j)%nat then 1 else 0))).
+    2:{ intros j Hj. rewrite rsum_scal.
+        change (rsum n (fun t => q i t * q j t)) with (dotf n (q i) (q j)).
+        rewrite Horth by assumption. reflexivity. }
+    exact (rsum_delta n (fun j => a i * b j) i Hi).
+  Qed.
+
+  Lemma ypow_expand k : forall t, (t < n)%nat ->
+    ypow n M k t = rsum n (fun i => c i * lam i ^ S k * q i t).
+  Proof.
+    induction k as [|k IH]; intros t Ht.
+    - cbn [ypow]. rewrite (mvf_lincomb c (fun _ => 1) Hones t Ht).
+      apply rsum_ext. intros; ring.
+    - cbn [ypow]. rewrite (mvf_lincomb (fun i => c i * lam i ^ S k) _ IH t Ht).
+      apply rsum_ext. intros i Hi. change (lam i ^ S (S k)) with (lam i * lam i ^ S k). ring.
+  Qed.
+
+  Lemma q0_expand t : (t < n)%nat ->
+    q 0%nat t = rsum n (fun j => (if (0 =? j)%nat then 1 else 0) * q j t).
+  Proof.
+    intro Ht. rewrite (rsum_ext n _ (fun j => q j t * (if (0 =? j)%nat then 1 else 0)))
+      by (intros; ring).
+    symmetry. apply (rsum_delta n (fun j => q j t) 0%nat). lia.
+  Qed.
+
+  Lemma ypow_nonzero k : ~ (forall t, (t < n)%nat -> ypow n M k t = 0).
+  Proof.
+    intro Hz.
+    assert (E : dotf n (ypow n M k) (q 0%nat) = c 0%nat * lam 0%nat ^ S k).
+    { rewrite (parseval _ _ _ _ (ypow_expand k) q0_expand).
+      rewrite (rsum_delta n (fun i => c i * lam i ^ S k) 0%nat) by lia. reflexivity. }
+    assert (Z : dotf n (ypow n M k) (q 0%nat) = 0).
+    { unfold dotf. apply rsum_zero. intros t Ht. rewrite (Hz t Ht). ring. }
+    rewrite Z in E. symmetry in E. apply Rmult_integral in E. destruct E as [E|E]; [exact (Hc0 E)|].
+    apply (pow_nonzero _ (S k) Hl0). exact E.
+  Qed.
+
+  (* one normalisation step maps a multiple of z to a multiple of M z *)
+  Lemma step_ypow (x : arr R) (z : nat -> R) P : shaped n 1 x -> P <> 0 ->
+    (forall t, (t < n)%nat -> aget x t 0 = z t / P) ->
+    ~ (forall s, (s < n)%nat -> mvf n M z s = 0) ->
+    exists P', P' <> 0 /\ shaped n 1 (step_vec A x) /\
+      (forall s, (s < n)%nat -> aget (step_vec A x) s 0 = mvf n M z s / P') /\
+      rayleigh_of n A (step_vec A x) = rqf n M (mvf n M z).
+  Proof.
+    intros Hx HP Hxz Hnz.
+    destruct (step_vec_R n A x Hn HA1 HA2 Hx) as [Hw [Hv [_ [Hwv [_ [_ [Hval _]]]]]]].
+    cbv zeta in *.
+    assert (Hwz : forall s, (s < n)%nat -> aget (amul A x) s 0 = mvf n M z s / P).
+    { intros s Hs. rewrite (Hwv s Hs). unfold mvf, Rdiv. rewrite <- rsum_scal_r.
+      apply rsum_ext. intros t Ht. rewrite (Hxz t Ht). unfold M, Rdiv. ring. }
+    assert (Hs0 : scale_of (amul A x) <> 0).
+    { apply (scale_nonzero n); [exact Hn|exact Hw|]. intro Hall. apply Hnz. intros s Hs.
+      specialize (Hall s Hs). rewrite (Hwz s Hs) in Hall.
+      replace (mvf n M z s) with (mvf n M z s / P * P) by (field; exact HP). rewrite Hall. ring. }
+    set (s0 := scale_of (amul A x)) in *.
+    exists (P * s0). split; [apply Rmult_integral_contrapositive_currified; assumption|].
+    split; [exact Hv|].
+    assert (Hvz : forall s, (s < n)%nat -> aget (step_vec A x) s 0 = mvf n M z s / (P * s0)).
+    { intros s Hs. rewrite (Hval s Hs), (Hwz s Hs). field. split; assumption. }
+    split; [exact Hvz|].
+    rewrite (rayleigh_of_R n A _ Hn HA1 HA2 Hv), rayleigh_rqf. fold M.
+    rewrite (rqf_ext n M _ (fun t => / (P * s0) * mvf n M z t)).
+    - apply rqf_scale. apply Rinv_neq_0_compat.
+      apply Rmult_integral_contrapositive_currified; assumption.
+    - intros t Ht. rewrite (Hvz t Ht). unfold Rdiv. ring.
+  Qed.
+
+  (* the model's k-th state: its eigenvalue is the Rayleigh quotient of
+     y_k = A^(k+1) * ones, its vector a non-zero multiple of y_k *)
+  Lemma pm_state_ypow k : exists P x, P <> 0 /\
+    pm_state A k = Ok (rqf n M (ypow n M k), x) /\ shaped n 1 x /\
+    forall t, (t < n)%nat -> aget x t 0 = ypow n M k t / P.
+  Proof.
+    induction k as [|k IH].
+    - destruct (pm_init_eq n A Hn HA1 HA2) as [Ei _]. cbv zeta in Ei.
+      destruct (step_ypow (afull 1 n 1) (fun _ => 1) 1 (afull_shaped _ n 1%nat) R1_neq_R0)
+        as [P' [HP' [Hsh [Hval Hray]]]].
+      + intros t Ht. rewrite aget_afull_in by lia. field.
+      + exact (ypow_nonzero 0).
+      + exists P', (init_vec n A). split; [exact HP'|]. split; [|split; [exact Hsh|exact Hval]].
+        change (pm_state A 0) with (pm_init A). rewrite Ei. unfold init_vec.
+        change (@n1 R RNum) with 1. rewrite Hray. reflexivity.
+    - destruct IH as [P [x [HP [Hst [Hx Hxv]]]]].
+      destruct (step_ypow x (ypow n M k) P Hx HP Hxv (ypow_nonzero (S k)))
+        as [P' [HP' [Hsh [Hval Hray]]]].
+      exists P', (step_vec A x). split; [exact HP'|]. split; [|split; [exact Hsh|exact Hval]].
+      cbn [pm_state]. rewrite Hst. cbn [bind fst snd].
+      destruct (pm_step_eq n A (rqf n M (ypow n M k)) x Hn HA1 HA2 Hx) as [E _]. cbv zeta in E.
+      rewrite E. cbn [bind fst snd]. rewrite Hray. reflexivity.
+  Qed.
+
+  (* the bound on the Rayleigh quotient of y_k *)
+  Lemma rqf_ypow_bound k :
+    Rabs (rqf n M (ypow n M k) - lam 0%nat) * c 0%nat ^ 2 <=
+    2 * Rabs (lam 0%nat) * g ^ (2 * k + 2) * rsum (n - 1) (fun i => c (S i) ^ 2).
+  Proof.
+    set (w := fun i => (c i * lam i ^ S k) ^ 2).
+    assert (ED : dotf n (ypow n M k) (ypow n M k) = rsum n w).
+    { rewrite (parseval _ _ _ _ (ypow_expand k) (ypow_expand k)).
+      apply rsum_ext. intros; unfold w; ring. }
+    assert (EN : dotf n (ypow n M k) (mvf n M (ypow n M k)) = rsum n (fun i => w i * lam i)).
+    { change (mvf n M (ypow n M k)) with (ypow n M (S k)).
+      rewrite (parseval _ _ _ _ (ypow_expand k) (ypow_expand (S k))).
+      apply rsum_ext. intros i Hi. unfold w. change (lam i ^ S (S k)) with (lam i * lam i ^ S k). ring. }
+    unfold rqf. rewrite ED, EN.
+    set (l0 := lam 0%nat) in *. set (L := (l0 ^ S k) ^ 2).
+    assert (Hl0k : l0 ^ S k <> 0) by (apply pow_nonzero; exact Hl0).
+    assert (HLpos : 0 < L) by (unfold L; nra).
+    assert (Hw0 : w 0%nat = c 0%nat ^ 2 * L) by (unfold w, L; fold l0; ring).
+    assert (Hw0pos : 0 < w 0%nat).
+    { rewrite Hw0. apply Rmult_lt_0_compat; [|exact HLpos]. nra. }
+    pose proof (wmean_bound (n - 1) w lam Hw0pos) as HB.
+    replace (S (n - 1)) with n in HB by lia. fold l0 in HB.
+    assert (Hwn : forall i, (i < n - 1)%nat -> 0 <= w (S i)) by (intros; unfold w; nra).
+    specialize (HB Hwn).
+    set (K := g ^ (2 * k + 2) * L * (2 * Rabs l0)).
+    assert (HT : rsum (n - 1) (fun i => w (S i) * Rabs (lam (S i) - l0)) <=
+                 rsum (n - 1) (fun i => c (S i) ^ 2) * K).
+    { rewrite <- rsum_scal_r. apply rsum_le. intros i Hi.
+      assert (Hgi : Rabs (lam (S i)) <= g * Rabs l0) by (apply Hgap; lia).
+      pose proof (Rabs_pos (lam (S i))) as Hai. pose proof (Rabs_pos l0) as Ha0.
+      assert (H1 : Rabs (lam (S i) - l0) <= 2 * Rabs l0).
+      { unfold Rminus. eapply Rle_trans; [apply Rabs_triang|]. rewrite Rabs_Ropp. nra. }
+      assert (H2 : (lam (S i) ^ S k) ^ 2 <= g ^ (2 * k + 2) * L).
+      { replace (2 * k + 2)%nat with (S k * 2)%nat by lia. rewrite pow_mult. unfold L.
+        rewrite <- (pow2_abs (lam (S i) ^ S k)), <- (pow2_abs (l0 ^ S k)), <- !RPow_abs.
+        rewrite <- Rpow_mult_distr, <- Rpow_mult_distr.
+        apply pow_incr. split; [apply pow_le; exact Hai|].
+        apply pow_incr. split; [exact Hai|exact Hgi]. }
+      unfold w, K. rewrite Rpow_mult_distr.
+      set (cc := c (S i) ^ 2). assert (0 <= cc) by (unfold cc; nra).
+      set (p := (lam (S i) ^ S k) ^ 2) in *. assert (0 <= p) by (unfold p; nra).
+      set (G := g ^ (2 * k + 2) * L) in *.
+      pose proof (Rabs_pos (lam (S i) - l0)) as Hd.
+      assert (p * Rabs (lam (S i) - l0) <= G * (2 * Rabs l0)) by nra.
+      nra. }
+    rewrite Hw0 in HB.
+    apply Rmult_le_reg_r with L; [exact HLpos|].
+    eapply Rle_trans; [|eapply Rle_trans; [exact (Rle_trans _ _ _ HB HT)|]].
+    - right. ring.
+    - right. unfold K. ring.
+  Qed.
+
+  Lemma c13_rayleigh_error_sec k : exists rho x,
+    pm_state A k = Ok (rho, x) /\ rho = rqf n M (ypow n M k) /\
+    Rabs (rho - lam 0%nat) * c 0%nat ^ 2 <=
+    2 * Rabs (lam 0%nat) * g ^ (2 * k + 2) * rsum (n - 1) (fun i => c (S i) ^ 2).
+  Proof.
+    destruct (pm_state_ypow k) as [P [x [_ [Hst _]]]].
+    exists (rqf n M (ypow n M k)), x. split; [exact Hst|]. split; [reflexivity|].
+    apply rqf_ypow_bound.
+  Qed.
+End Eigen.
+
+Lemma c13_rayleigh_error_R : forall (n : nat) (A : arr R) (q : nat -> nat -> R) (lam c : nat -> R) (g : R),
+  (1 <= n)%nat -> ah A = n -> aw A = n ->
+  (forall i j, (i < n)%nat -> (j < n)%nat ->
+     dotf n (q i) (q j) = if (i =? j)%nat then 1 else 0) ->
+  (forall i s, (i < n)%nat -> (s < n)%nat -> mvf n (aget A) (q i) s = lam i * q i s) ->
+  (forall t, (t < n)%nat -> 1 = rsum n (fun i => c i * q i t)) ->
+  c 0%nat <> 0 -> lam 0%nat <> 0 -> 0 <= g < 1 ->
+  (forall i, (1 <= i < n)%nat -> Rabs (lam i) <= g * Rabs (lam 0%nat)) ->
+  forall k, exists rho x,
+    pm_state A k = Ok (rho, x) /\ rho = rqf n (aget A) (ypow n (aget A) k) /\
+    Rabs (rho - lam 0%nat) * c 0%nat ^ 2 <=
+    2 * Rabs (lam 0%nat) * g ^ (2 * k + 2) * rsum (n - 1) (fun i => c (S i) ^ 2).
+Proof. exact c13_rayleigh_error_sec. Qed.
+
+(* non-vacuity of the eigen-decomposition hypotheses: A = diag(2, 1), q_i = e_i *)
+Lemma eigen_example : forall k, exists rho x,
+  pm_state (mk_arr 2 2 [2; 0; 0; 1]) k = Ok (rho, x) /\
+  Rabs (rho - 2) * 1 ^ 2 <= 2 * Rabs 2 * (1 / 2) ^ (2 * k + 2) * rsum 1 (fun _ => 1 ^ 2).
+Proof.
+  intro k.
+  set (q := fun i t : nat => if (i =? t)%nat then 1 else 0).
+  set (lam := fun i : nat => if (i =? 0)%nat then 2 else 1).
+  assert (H1 : forall i j, (i < 2)%nat -> (j < 2)%nat ->
+            dotf 2 (q i) (q j) = if (i =? j)%nat then 1 else 0).
+  { intros i j Hi Hj. destruct i as [|[|i]]; destruct j as [|[|j]]; try lia;
+      unfold dotf, q; cbn [rsum Nat.eqb]; ring. }
+  assert (H2 : forall i s, (i < 2)%nat -> (s < 2)%nat ->
+            mvf 2 (aget (mk_arr 2 2 [2; 0; 0; 1])) (q i) s = lam i * q i s).
+  { intros i s Hi Hs. destruct i as [|[|i]]; destruct s as [|[|s]]; try lia;
+      unfold mvf, aget, q, lam; cbn [rsum aw ad nth Nat.mul Nat.add Nat.eqb]; ring. }
+  assert (H3 : forall t, (t < 2)%nat -> 1 = rsum 2 (fun i => 1 * q i t)).
+  { intros t Ht. destruct t as [|[|t]]; try lia; unfold q; cbn [rsum Nat.eqb]; ring. }
+  assert (H4 : forall i, (1 <= i < 2)%nat -> Rabs (lam i) <= 1 / 2 * Rabs (lam 0%nat)).
+  { intros i Hi. assert (i = 1)%nat by lia. subst i. unfold lam. cbn [Nat.eqb].
+    rewrite Rabs_R1, (Rabs_pos_eq 2) by lra. lra. }
+  destruct (c13_rayleigh_error_R 2 (mk_arr 2 2 [2; 0; 0; 1]) q lam (fun _ => 1) (1 / 2)
+              (le_S _ _ (le_n 1)) eq_refl eq_refl H1 H2 H3 R1_neq_R0
+              ltac:(unfold lam; cbn [Nat.eqb]; lra) ltac:(lra) H4 k)
+    as [rho [x [Hst [_ Hb]]]].
+  exists rho, x. split; [exact Hst|]. unfold lam in Hb. cbn [Nat.eqb Nat.sub] in Hb. exact Hb.
+Qed.
